@@ -112,3 +112,105 @@ pub fn writer_script(ops: &[String]) -> Vec<String> {
   }
   out
 }
+
+/// A prefix for the hooks below: (count, lower, upper, code, jumpstart, gcd),
+/// bounds and gcd in the unsigned domain of the `bits`-wide unsigned type.
+pub type VPrefix = (usize, u128, u128, Vec<bool>, Option<usize>, u128);
+
+macro_rules! with_unsigned {
+  ($bits:expr, $t:ident, $body:block) => {
+    match $bits {
+      16 => { type $t = u16; $body }
+      32 => { type $t = u32; $body }
+      64 => { type $t = u64; $body }
+      128 => { type $t = u128; $body }
+      _ => "bad-bits".to_string(),
+    }
+  };
+}
+
+fn mk_prefixes<T: crate::data_types::NumberLike>(ps: &[VPrefix], conv: fn(u128) -> T, convu: fn(u128) -> T::Unsigned) -> Vec<crate::Prefix<T>> {
+  ps.iter().map(|(count, lower, upper, code, jump, gcd)| crate::Prefix {
+    count: *count,
+    code: code.clone(),
+    lower: conv(*lower),
+    upper: conv(*upper),
+    run_len_jumpstart: *jump,
+    gcd: convu(*gcd),
+    phantom: std::marker::PhantomData,
+  }).collect()
+}
+
+/// Runs the chunk body writer (`trained_compress_chunk_nums`) for the given
+/// prefix table on the given unsigneds with a fresh writer; answers
+/// `ok <bits as 0/1>` or `err <kind>`.
+pub fn body_writer_script(bits: usize, ps: &[VPrefix], us: &[u128]) -> String {
+  with_unsigned!(bits, U, {
+    let prefixes = mk_prefixes::<U>(ps, |x| x as U, |x| x as U);
+    let unsigneds: Vec<U> = us.iter().map(|&x| x as U).collect();
+    let mut writer = BitWriter::default();
+    match crate::compressor::verif_body_writer::<U>(&prefixes, &unsigneds, &mut writer) {
+      Ok(()) => {
+        let mut s = String::from("ok ");
+        for b in writer.drain_bytes() {
+          for k in (0..8).rev() {
+            s.push(if (b >> k) & 1 == 1 { '1' } else { '0' });
+          }
+        }
+        s
+      }
+      Err(e) => format!("err {}", kind(&e)),
+    }
+  })
+}
+
+/// Builds a `NumDecompressor` for the prefixes, puts it in the given state
+/// (`n_processed`, incomplete prefix = (index into `ps`, remaining reps)),
+/// seeks a reader over `bytes` to `bit_idx` and runs one
+/// `decompress_unsigneds_limited_dirty(limit, error_on_insufficient_data)`.
+/// Answers `<status> finished=<bool> inc=<lower:reps|none> bit_idx=<i> n=<len> us=<hex,..>`.
+pub fn num_decompressor_script(
+  bits: usize,
+  ps: &[VPrefix],
+  n: usize,
+  n_processed: usize,
+  incomplete: Option<(usize, usize)>,
+  limit: usize,
+  error_on_insufficient_data: bool,
+  bytes: &[u8],
+  bit_idx: usize,
+) -> String {
+  use crate::num_decompressor::NumDecompressor;
+  use crate::prefix::PrefixDecompressionInfo;
+  with_unsigned!(bits, U, {
+    let prefixes = mk_prefixes::<U>(ps, |x| x as U, |x| x as U);
+    let inc = incomplete.map(|(i, reps)| (PrefixDecompressionInfo::from(&prefixes[i]), reps));
+    let mut nd = match NumDecompressor::<U>::new(n, bytes.len(), prefixes) {
+      Ok(nd) => nd,
+      Err(e) => {
+        let inc_s = match incomplete {
+          Some((i, reps)) => format!("{:x}:{}", ps[i].1, reps),
+          None => "none".to_string(),
+        };
+        return format!("err:{} finished=false inc={} bit_idx={} n=0 us=", kind(&e), inc_s, bit_idx);
+      }
+    };
+    let mut words = BitWords::default();
+    words.extend_bytes(bytes);
+    let mut reader = BitReader::from(&words);
+    reader.seek_to(bit_idx);
+    let (res, inc_after, idx) = nd.verif_dirty(&mut reader, n_processed, inc, limit, error_on_insufficient_data);
+    let inc_s = match inc_after {
+      Some((lower, reps)) => format!("{:x}:{}", lower, reps),
+      None => "none".to_string(),
+    };
+    match res {
+      Ok(u) => format!(
+        "ok finished={} inc={} bit_idx={} n={} us={}",
+        u.finished_chunk_body, inc_s, idx, u.unsigneds.len(),
+        u.unsigneds.iter().map(|x| format!("{:x}", x)).collect::<Vec<_>>().join(","),
+      ),
+      Err(e) => format!("err:{} finished=false inc={} bit_idx={} n=0 us=", kind(&e), inc_s, idx),
+    }
+  })
+}
